@@ -877,6 +877,12 @@ func main() {
 				fmt.Printf("replay %v\n", c)
 				dmWriterOne(l, c)
 			}
+		case "dm-base256":
+			var c dmCase
+			if mc.LoadReplay(chk.ReplayFile(), &c) == nil {
+				fmt.Printf("replay %v\n", c)
+				dmBase256One(l, c)
+			}
 		case "dm-hinted":
 			var c dmCase
 			if mc.LoadReplay(chk.ReplayFile(), &c) == nil {
@@ -898,5 +904,6 @@ func main() {
 	dmLookups()
 	dmWriter()
 	dmNonDigit()
+	dmBase256()
 	chk.Finish()
 }
